@@ -61,7 +61,20 @@ class ConfigParserModel(Model):
             return self.method(ref, rd, name)
         if name == "write":
             def wr(it_, self_ref, a, k):
+                # serialising: the text written is some text whose parse is exactly this parser's
+                # options (configparser write/read round trip: ASSUMED, bounded conformance; it is
+                # false for values with a line feed - the recorded C15 finding)
                 it_.path.effects.append(("ConfigWrite",))
+                tgt = a[0] if a else None
+                if isinstance(tgt, VRef) and it_.heap()[tgt.addr].native is STRINGIO:
+                    f = F(it_, self_ref)
+                    r = it_.path.const("configparser.rendered", STR)
+                    pc = parsed_config(r)
+                    it_.path.assume(pc.dom == f["data"].dom)
+                    it_.path.assume(pc.val.t == f["data"].val.t)
+                    it_.path.dropped.add("configparser write / read_string round trip (assumed: parsing what was written gives the same options)")
+                    cell = it_.path.heap[tgt.addr]
+                    cell.fields["data"] = VStr(z3.Concat(cell.fields["data"].t, r))
                 return NONE
             return self.method(ref, wr, name)
         raise Unsupported(f"ConfigParser.{name}")
@@ -236,6 +249,30 @@ class BytesIOModel(Model):
 BYTESIO = BytesIOModel()
 
 
+class StringIOModel(Model):
+    cls_name = "io.StringIO"
+
+    def getattr(self, it, ref, name):
+        if name == "write":
+            def write(it_, self_ref, a, k):
+                cell = it_.path.heap[self_ref.addr]
+                cell.fields["data"] = VStr(z3.Concat(cell.fields["data"].t, a[0].t))
+                return VInt(z3.Length(a[0].t))
+            return self.method(ref, write, name)
+        if name == "getvalue":
+            return self.method(ref, lambda it_, r, a, k: F(it_, r)["data"], name)
+        raise Unsupported(f"StringIO.{name}")
+
+
+STRINGIO = StringIOModel()
+
+
+def stringio_new(it, a, k):
+    if a or k:
+        raise Unsupported("StringIO with initial contents")
+    return new(it, STRINGIO, {"data": VStr(S(""))})
+
+
 def bytesio_new(it, a, k):
     if a or k:
         raise Unsupported("BytesIO with initial contents")
@@ -260,6 +297,7 @@ def install(reg):
     E = reg.externals
     E["configparser.ConfigParser"] = VNative(cp_construct, "configparser.ConfigParser")
     E["io.BytesIO"] = VNative(bytesio_new, "io.BytesIO")
+    E["io.StringIO"] = VNative(stringio_new, "io.StringIO")
     E["configparser.DuplicateSectionError"] = VExtClass("configparser.DuplicateSectionError")
 
     class CPFactory:
